@@ -5,7 +5,7 @@ import os
 from hypothesis import strategies as st
 
 from checks import hist
-from vlib import simdrv
+from vlib import isolate, simdrv
 from vlib.cli import Violation
 from vlib.hyp import run_property
 
@@ -202,7 +202,9 @@ def tmd_cases(draw):
     pts = sorted(set(draw(st.lists(st.integers(1, N - 1), min_size=1, max_size=2))))
     moves = draw(st.sampled_from([["sh"] * 8, ["sh", "sh", "wf", "wf", "wf", "wf", "wf", "wf"], ["sh", "wf", "sh", "wf", "sh", "wf", "sh", "sh"]]))
     dl = draw(st.sampled_from(["off", "on", "all"]))
-    spec = {"engine": "turtlemd", "n": 8, "moves": moves, "workers": 1, "steps": N, "seed": draw(SEEDS), "allowmaxlength": True, "n_jumps": draw(st.sampled_from([2, 6])),
+    # wire-fencing cap: unset, the top of the barrier (0.0, a falsy number), or somewhere else above the last wf interface
+    cap = draw(st.sampled_from([None, 0.0, 0.0, -0.1, 0.4])) if "wf" in moves else None
+    spec = {"engine": "turtlemd", "cap": cap, "n": 8, "moves": moves, "workers": 1, "steps": N, "seed": draw(SEEDS), "allowmaxlength": True, "n_jumps": draw(st.sampled_from([2, 6])),
             "maxlength": draw(st.sampled_from([200, 2000])), "delete_old": dl != "off", "delete_old_all": dl == "all", "zeroswap": None}
     return {"spec": spec, "N": N, "points": pts}
 
@@ -213,7 +215,7 @@ def body_tmd(rec, c):
     b, cfg_b, res_b = run_chain(spec, pts + [N])
     acc = sum(r["stats"].get("accepted", 0) for r in res_a)
     nt = spec["seed"] != 0 and acc >= 2
-    rec.case(key=c, nontrivial=nt, classes=["turtlemd", "turtlemd:seed0" if spec["seed"] == 0 else "turtlemd:seed!=0", f"turtlemd:accepted>={min(acc, 3)}"],
+    rec.case(key=c, nontrivial=nt, classes=["turtlemd", f"turtlemd:cap={spec['cap']}", "turtlemd:seed0" if spec["seed"] == 0 else "turtlemd:seed!=0", f"turtlemd:accepted>={min(acc, 3)}"],
              sample={"spec": spec, "split_points": pts, "accepted_moves": acc} if nt and len(rec.samples) < 3 else None)
     dk = diff_keys(a, b)
     if dk:
@@ -225,7 +227,55 @@ def body_tmd(rec, c):
         rec.check(not diff_keys(a, a2), "C06:turtlemd:same-seed-different-run", f"{diff_keys(a, a2)[:5]}")
 
 
-PARTS = {"split": (split_cases, body_split), "kill": (kill_cases, body_kill), "turtlemd": (tmd_cases, body_tmd)}
+# ------------------------------------------- (a'') fresh interpreters: the real entry point, string-hash randomisation varied
+FRESH_CHILD = """
+import os, sys
+from infretis.bin import internalrun
+internalrun("infretis.toml")
+"""
+
+
+def run_fresh(spec, hashseed):
+    """One run through infretis.bin.internalrun (real scheduler and process pool) in a fresh interpreter."""
+    import subprocess
+    import sys
+
+    d = simdrv.make_rundir_turtlemd(spec)
+    try:
+        env = dict(os.environ, PYTHONHASHSEED=str(hashseed))
+        p = subprocess.run([sys.executable, "-c", FRESH_CHILD], cwd=d, env=env, stdout=subprocess.PIPE, stderr=subprocess.STDOUT, text=True, timeout=900)
+        if p.returncode != 0:
+            return None, p.stdout[-1500:]
+        return snapshot(d)[0], ""
+    finally:
+        isolate.rmscratch(d)
+
+
+@st.composite
+def fresh_cases(draw):
+    N = draw(st.integers(4, 16))
+    two = draw(st.booleans())
+    moves = draw(st.sampled_from([["sh"] * 8, ["sh", "sh", "wf", "wf", "wf", "wf", "wf", "wf"]]))
+    spec = {"engine": "turtlemd", "two_engines": two, "cap": None, "n": 8, "moves": moves, "workers": 1, "steps": N, "seed": draw(st.integers(1, 10**6)), "allowmaxlength": True,
+            "n_jumps": 2, "maxlength": 500, "delete_old": False, "delete_old_all": False, "zeroswap": None}
+    hs = draw(st.lists(st.integers(0, 4000), min_size=2, max_size=2, unique=True))
+    return {"spec": spec, "hashseeds": hs}
+
+
+def body_fresh(rec, c):
+    spec, hs = c["spec"], c["hashseeds"]
+    a, ea = run_fresh(spec, hs[0])
+    b, eb = run_fresh(spec, hs[1])
+    rec.check(a is not None and b is not None, "C06:fresh:run-failed", f"{(ea or eb)[-600:]}\n  spec={spec}")
+    rec.case(key=c, nontrivial=True, classes=["fresh", "fresh:two-engines" if spec["two_engines"] else "fresh:one-engine"],
+             sample={"spec": spec, "PYTHONHASHSEED": hs} if len(rec.samples) < 2 else None)
+    dk = diff_keys(a, b)
+    if dk:
+        k0 = dk[0]
+        rec.check(False, "C06:fresh:same-seed-different-interpreter", f"PYTHONHASHSEED {hs[0]} vs {hs[1]}: differing {dk[:6]}; first: {first_diff(a.get(k0), b.get(k0))}\n  spec={spec}")
+
+
+PARTS = {"split": (split_cases, body_split), "kill": (kill_cases, body_kill), "turtlemd": (tmd_cases, body_tmd), "fresh": (fresh_cases, body_fresh)}
 
 
 def run(ctx):
@@ -243,6 +293,7 @@ def run(ctx):
     run_property(ctx, "split", split_cases, body_split, ctx.pick(300, 4000), shards=ctx.procs, shrink=not ctx.quick)
     run_property(ctx, "kill", kill_cases, body_kill, ctx.pick(400, 5000), shards=ctx.procs, shrink=not ctx.quick)
     run_property(ctx, "turtlemd", tmd_cases, body_tmd, ctx.pick(48, 480), shards=ctx.procs, shrink=not ctx.quick)
+    run_property(ctx, "fresh", fresh_cases, body_fresh, ctx.pick(32, 320), shards=ctx.procs, shrink=False)
 
 
 def replay(ctx, data):
